@@ -102,6 +102,18 @@ def seeded(prop=None):
     return out
 
 
+def refactors():
+    """behaviour-preserving refactorings of /repo (tools/refactor_prompt.py): every check must stay silent on them."""
+    base = os.path.join(os.path.dirname(HERE), 'refactors')
+    out = []
+    if os.path.isdir(base):
+        for d in sorted(os.listdir(base)):
+            pp = os.path.join(base, d, 'patch.diff')
+            if os.path.exists(pp):
+                out.append({'id': 'refactor:' + d, 'patch': pp, 'props': None, 'silent': True})
+    return out
+
+
 def _one(args):
     prop, m, base_keys = args
     from .check import load_prop
@@ -125,10 +137,14 @@ def _one(args):
     try:
         ctx, _ = run_rules(prop, load_prop(prop).RULES, Model(ov), 'thorough')
     except AnalysisError as exc:
-        return (m['id'], 'analysis-error', str(exc))
+        return (m['id'], 'false-alarm' if m.get('silent') else 'analysis-error', str(exc))
     except Exception as exc:  # engine bug on mutated input: fail closed
-        return (m['id'], 'analysis-error', f'internal: {exc!r}')
+        return (m['id'], 'false-alarm' if m.get('silent') else 'analysis-error', f'internal: {exc!r}')
     new = [f.key for f in ctx.findings if f.key not in base_keys]
+    if m.get('silent'):
+        if new or ctx.errors:
+            return (m['id'], 'false-alarm', new[:3] or [str(e) for e in ctx.errors[:2]])
+        return (m['id'], 'silent', '')
     if new:
         return (m['id'], 'caught', new[:3])
     return (m['id'], 'missed', '')
@@ -138,7 +154,7 @@ def run(prop, seed=0, jobs=16, base_keys=None):
     from .check import load_prop
     from .model import Model
     from .report import run_rules
-    ms = load_mutants(prop) + seeded(prop)
+    ms = load_mutants(prop) + seeded(prop) + refactors()
     random.Random(seed).shuffle(ms)
     if base_keys is None:
         ctx, _ = run_rules(prop, load_prop(prop).RULES, Model(SourceTree()), 'thorough')
@@ -147,7 +163,9 @@ def run(prop, seed=0, jobs=16, base_keys=None):
     if ms:
         with ProcessPoolExecutor(max_workers=min(jobs, len(ms))) as ex:
             res = list(ex.map(_one, [(prop, m, base_keys) for m in ms]))
-    out = {'mutants': len(ms),
+    out = {'mutants': sum(1 for m in ms if not m.get('silent')),
+           'refactors_silent': sorted(r[0] for r in res if r[1] == 'silent'),
+           'false_alarms': sorted(r[0] for r in res if r[1] == 'false-alarm'),
            'caught': sorted(r[0] for r in res if r[1] == 'caught'),
            'fail_closed': sorted(r[0] for r in res if r[1] == 'analysis-error'),
            'skipped': sorted(r[0] for r in res if r[1] == 'skipped'),
@@ -161,7 +179,7 @@ if __name__ == '__main__':
     sys.path.insert(0, os.path.dirname(HERE))
     record = '--record' in sys.argv
     argv = [a for a in sys.argv[1:] if a != '--record']
-    props = argv or sorted({p for m in load_mutants() + seeded() for p in m['props']})
+    props = argv or sorted({p for m in load_mutants() + seeded() for p in m['props'] if p})
     rec = {}
     if record and os.path.exists(EXPECT_FILE):
         with open(EXPECT_FILE) as fh:
@@ -172,7 +190,9 @@ if __name__ == '__main__':
         except ModuleNotFoundError:
             print(p, 'no rules module')
             continue
-        print(p, {k: r[k] for k in ('mutants', 'caught', 'fail_closed', 'skipped', 'missed')})
+        print(p, {k: r[k] for k in ('mutants', 'caught', 'fail_closed', 'skipped', 'missed', 'false_alarms')})
+        for k in r['false_alarms']:
+            print('   FALSE ALARM', k, r['detail'][k])
         for k in r['fail_closed']:
             print('   ', k, r['detail'][k])
         if record:
